@@ -392,3 +392,11 @@ fire("c02-triangular-logdet-full-matrix", "C02", B + "affine.py",
      "        return y, jnp.log(jnp.abs(jnp.diag(self.triangular))).sum()", "        return y, jnp.log(jnp.abs(self.triangular)).sum()")
 fire("c02-leaky-linear-logdet", "C02", B + "tanh.py",
      "            jnp.abs(x) >= self.max_val,\n            jnp.log(self.linear_grad),", "            jnp.abs(x) >= self.max_val,\n            self.linear_grad,", "C02.deriv")
+
+# ----------------------------------------------------------------------------- C01.root
+fire("c01-spline-inverse-b-sign", "C01", B + "rational_quadratic_spline.py",
+     "        b = (yk1 - yk) * derivatives[k] - y_delta_s_term", "        b = (yk1 - yk) * derivatives[k] + y_delta_s_term", "C01.root")
+fire("c01-spline-forward-term", "C01", B + "rational_quadratic_spline.py",
+     "        num = (yk1 - yk) * (sk * xi**2 + dk * xi * (1 - xi))", "        num = (yk1 - yk) * (sk * xi**2 + dk1 * xi * (1 - xi))", "C01.root")
+fire("c01-spline-inverse-c", "C01", B + "rational_quadratic_spline.py",
+     "        c = -sk * (y_robust - yk)", "        c = -sk * (y_robust - yk1)", "C01.root")
